@@ -29,6 +29,7 @@ type c15Case struct {
 	Guests   int      `json:"guests,omitempty"` // insert, infix: this many further guest records follow the first in the guest stream
 	Pre      []int    `json:"pre,omitempty"`    // other records (c15Others) placed before the record in the stream ...
 	Post     []int    `json:"post,omitempty"`   // ... and after it: the stream's output must be the outputs of its records one by one
+	Sin      int      `json:"sin,omitempty"`    // standard input: 0 a pipe, 1 a regular file, 2 a regular file positioned behind a line the caller consumed
 	Twice    bool     `json:"twice,omitempty"`  // the input stream holds the record twice: both copies must be treated alike
 }
 
@@ -300,9 +301,12 @@ func c15Check(c c15Case) *Violation {
 	initPool()
 	input := c15Record(c)
 	seqBytes := idBytes(0, c.L)
-	env := newCliEnv()
+	env := newCliEnv().withStdin(mod(c.Sin, 3))
 	defer env.remove()
 	what := fmt.Sprintf("gts %s %v (L=%d circ=%v flag=%v fasta=%v)", c.Cmd, c.Locators, c.L, c.Circ, c.Flag, c.Fasta)
+	if c.Sin != 0 {
+		what += " stdin=" + []string{"pipe", "file", "file-at-offset"}[mod(c.Sin, 3)]
+	}
 	if len(c.Pre)+len(c.Post) > 0 {
 		if v := c15Mixed(c, env, what, input); v != nil {
 			return v
@@ -831,6 +835,9 @@ func c15Classify(c c15Case) (bool, []string) {
 	if len(c.Pre)+len(c.Post) > 0 {
 		labels = append(labels, "mixed-stream")
 	}
+	if c.Sin != 0 {
+		labels = append(labels, "stdin-regular-file")
+	}
 	var regions []mRegion
 	for _, lt := range c.Locators {
 		rr, ok := resolveLocator(lt, c.L, c.Feats)
@@ -882,6 +889,7 @@ func c15Gen(t *rapid.T) c15Case {
 	if c.Cmd == "insert" || c.Cmd == "infix" {
 		c.Guests = rapid.SampledFrom([]int{0, 0, 1, 2, 3}).Draw(t, "guests")
 	}
+	c.Sin = rapid.SampledFrom([]int{0, 0, 0, 0, 1, 2}).Draw(t, "sin")
 	if rapid.IntRange(0, 3).Draw(t, "mixed") == 0 {
 		c.Pre = rapid.SliceOfN(rapid.IntRange(0, 4), 0, 2).Draw(t, "pre")
 		c.Post = rapid.SliceOfN(rapid.IntRange(0, 4), 0, 2).Draw(t, "post")
